@@ -587,7 +587,9 @@ package tlog
 //@   requires 0 <= index && index <= pow2(61)
 //@   ensures [C09] right_inverse: level >= 0 && n >= 0 && SHI(level, n) == index
 //@   loop 0:
-//@     invariant n >= 0 && n <= index && indexN == S0(n) && indexN <= index
+//@     invariant n >= 0 && n <= index
+//@     invariant indexN == S0(n)
+//@     invariant indexN <= index
 //@     decreases index - indexN
 //@   uses S0_step S0_upper TZ_nonneg split_coords S0_nonneg
 //@   props C09
